@@ -190,6 +190,22 @@ class Source:
             'impl_header': (self.s[toks[block[1]].start:toks[block[2]].start].strip() if block else None),
         }
 
+    def find_assoc_const(self, name, impl_type):
+        toks = self.toks
+        depth = self.depth_map()
+        cand = []
+        for b in [b for b in self.impl_blocks() if b[0] == impl_type and not b[4]]:
+            for i in range(b[2], b[3]):
+                if depth[i] == 1 and toks[i].text == 'const' and toks[i + 1].text == name:
+                    cand.append(i)
+        if len(cand) != 1:
+            raise Undecided('const %s::%s: %d definitions' % (impl_type, name, len(cand)))
+        i = cand[0]
+        k = i
+        while toks[k].text != ';':
+            k += 1
+        return {'start': toks[i].start, 'end': toks[k].end}
+
     def find_item(self, kind, name):
         toks = self.toks
         depth = self.depth_map()
@@ -685,6 +701,14 @@ def build_unit(unit_path, canary=None, mutate=None):
                 names = [(p['fn'], p.get('stub', False))]
             header = None
             body_parts = []
+            for cname in p.get('consts', []):
+                loc = s.find_assoc_const(cname, impl)
+                cot = s.otext(loc['start'], loc['end'], origins)
+                body_parts.append(cot)
+                body_parts.append(OText.plain('\n', 0))
+                funcs['%s::%s::const %s' % (p['file'], impl, cname)] = {
+                    'file': p['file'], 'lines': [s.line_of(loc['start']), s.line_of(loc['end'] - 1)],
+                    'sha256': hashlib.sha256(cot.s.encode()).hexdigest(), 'kind': 'assoc const'}
             for name, stub in names:
                 loc = s.find_fn(name, impl)
                 header = loc['impl_header']
